@@ -355,10 +355,92 @@ fn cli_path_spellings(rep: &Report) {
     rep.extra("cli_path_spellings", json!(spellings.len()));
 }
 
+/// Key names are arbitrary text: names containing '=', several '=', a trailing '=', blanks inside, non-ASCII. The round trip
+/// through the program works under those names and the sender is reported by its full name.
+fn cli_unusual_names(rep: &Report) {
+    use crate::proc::{self, Cmd, Scratch};
+    let seed = rep.seed;
+    let pairs = [("alice=work", "bob=home"), ("a=b=c", "x="), ("ops=alice", "ops=bob"), ("name with  blanks", "\u{fc}n\u{ef} c\u{f8}de"), ("=", "==")];
+    pairs.par_iter().for_each(|(sn, rn)| {
+        rep.eval(1);
+        rep.nontrivial(format!("cli-unusual-names-{}-{}", sn, rn).as_bytes());
+        let ssk = derive32(seed, &format!("c01-name-s-{}", sn));
+        let rsk = derive32(seed, &format!("c01-name-r-{}", rn));
+        let locked = |sk: &[u8; 32], pw: &str| r::b64(&r::lock_key(sk, pw.as_bytes(), &derive32(seed, &format!("c01-name-salt-{}", pw))));
+        let kr = format!("{}\n{}", proc::keyring_entry(sn, &r::encode_pk(&r::x25519_base(&ssk)), Some(&locked(&ssk, "spw"))), proc::keyring_entry(rn, &r::encode_pk(&r::x25519_base(&rsk)), Some(&locked(&rsk, "rpw"))));
+        let p = plaintext(seed ^ 0x1a9, 777);
+        let attempt = || -> Result<(), String> {
+            let sc = Scratch::new();
+            sc.write("kr.txt", kr.as_bytes());
+            sc.write("plain.bin", &p);
+            let o = proc::run(&Cmd::new(&["encrypt", "plain.bin", "-t", rn, "-f", sn, "-k", "kr.txt", "-o", "ct.ktl", "--env-pass"]).env("KESTREL_PASSWORD", "spw"), &sc.0);
+            o.well_behaved()?;
+            if !o.ok() {
+                return Err(format!("encrypt -f {:?} -t {:?} fails although both entries are in the keyring: {}", sn, rn, o.summary()));
+            }
+            let o = proc::run(&Cmd::new(&["decrypt", "ct.ktl", "-t", rn, "-k", "kr.txt", "-o", "back.bin", "--env-pass"]).env("KESTREL_PASSWORD", "rpw"), &sc.0);
+            o.well_behaved()?;
+            if !o.ok() || sc.read("back.bin").as_deref() != Some(&p[..]) {
+                return Err(format!("decrypt -t {:?} does not return the plaintext: {}", rn, o.summary()));
+            }
+            if !o.stderr.contains(*sn) {
+                return Err(format!("the sender, filed under the name {:?}, is not reported by that name: {:?}", sn, o.stderr));
+            }
+            Ok(())
+        };
+        if attempt().is_err() {
+            if let Err(e) = attempt() {
+                rep.violation("cli/unusual-key-names", json!({"kind":"cli-names","sender":sn,"recipient":rn}), e);
+            }
+        }
+    });
+    rep.extra("cli_unusual_name_pairs", json!(pairs.len()));
+}
+
+/// All four ways of supplying the optional ephemeral pair (both halves, none, private only, public only) x payload key given
+/// or not x three lengths: the file decrypts to the plaintext and names the sender.
+fn ephemeral_option_combinations(rep: &Report) {
+    let seed = rep.seed;
+    let ids = idents(seed);
+    let e = derive32(seed, "c01-opt-e");
+    let e_pub = r::x25519_base(&e);
+    let pay = derive32(seed, "c01-opt-pay");
+    let mut jobs = vec![];
+    for l in [0usize, 13, CS as usize + 1] {
+        for m in 0..8u8 {
+            jobs.push((l, m));
+        }
+    }
+    jobs.par_iter().for_each(|&(l, m)| {
+        rep.eval(1);
+        rep.nontrivial(format!("ephemeral-options-{}-{}", l, m).as_bytes());
+        let p = plaintext(seed ^ 0x1aa, l);
+        let ek = if m & 1 != 0 { Some(kestrel_crypto::PrivateKey::try_from(&e[..]).unwrap()) } else { None };
+        let epk = if m & 2 != 0 { Some(kestrel_crypto::PublicKey::try_from(&e_pub[..]).unwrap()) } else { None };
+        let pk = if m & 4 != 0 { Some(kestrel_crypto::PayloadKey::new(&pay)) } else { None };
+        let what = format!("key_encrypt(ephemeral: {}, ephemeral_public: {}, payload_key: {}) of {} bytes", if m & 1 != 0 { "Some" } else { "None" }, if m & 2 != 0 { "Some" } else { "None" }, if m & 4 != 0 { "Some" } else { "None" }, l);
+        let case = json!({"kind":"ephemeral-options","len":l,"mask":m});
+        let mut out = Vec::new();
+        let mut src: &[u8] = &p;
+        match guarded(|| kestrel_crypto::encrypt::key_encrypt(&mut src, &mut out, &ids[0].private(), &ids[0].public(), &ids[1].public(), ek.as_ref(), epk.as_ref(), pk.as_ref(), kestrel_crypto::AsymFileFormat::V1).map_err(|e| e.to_string())) {
+            Err(pm) => rep.violation("lib/ephemeral-options", case, format!("{} panicked: {}", what, pm)),
+            Ok(Err(e)) => rep.violation("lib/ephemeral-options", case, format!("{} failed: {}", what, e)),
+            Ok(Ok(())) => {
+                let (res, back) = run_plain(&Subject::KeyDec { r: hx(&ids[1].sk), r_pub: hx(&ids[1].pk) }, &out);
+                let sender_ok = matches!(&res, Res::Ok(Some(k)) if k[..] == ids[0].pk[..]);
+                if !sender_ok || back != p {
+                    rep.violation("lib/ephemeral-options", case, format!("the file written by {} does not decrypt to the plaintext with the sender named: {}", what, res.brief()));
+                }
+            }
+        }
+    });
+    rep.extra("ephemeral_option_combinations", json!(jobs.len()));
+}
+
 pub fn run(rep: &Report) {
     let seed = rep.seed;
     rep.set_rule("E-ENV: every tape of Read/Write answers within the stated budgets is executed on the real code; read partitions in tiny scope are exhaustive (every composition of L into parts <= cs). A case is one complete execution; distinct non-trivial = distinct ciphertext streams (i.e. distinct (keys, length, chunking)) that were produced by the real encryptor and decrypted again by the real decryptor");
-    rep.rule_add("CLI: FILE named through a symlinked directory followed by .., ./, a/../, // (a same-named decoy where a textual clean-up would point).");
+    rep.rule_add("CLI: FILE named through a symlinked directory followed by .., ./, a/../, // (a same-named decoy where a textual clean-up would point). Key names containing '=', blanks, non-ASCII through the CLI. All 8 combinations of supplying ephemeral private / public / payload key x 3 lengths.");
     rep.rule_add("Every final-chunk length 0..=65536 at production chunk size round-trips through the two real chunk loops.");
     rep.rule_add("CLI round trips over {FILE arguments, stdin/stdout pipes, named pipes as FILE arguments} x {fresh, pre-existing longer output files}.");
     rep.assume("key and plaintext byte values come from seed-derived alphabets (4 identities, formula plaintexts)");
@@ -467,6 +549,8 @@ pub fn run(rep: &Report) {
     rep.sample(json!({"scope":"production","L":cs+1,"sender":"S","recipient":"R","rng":"seam","reads":"bounded menu {full,1,avail-1,ceil(avail/2)}","budget":"<=2 short answers in total (thorough), <=1 for L>=cs (quick)"}));
     crate::c06::chunk_length_sweep(rep, "C01", false);
     cli_path_spellings(rep);
+    cli_unusual_names(rep);
+    ephemeral_option_combinations(rep);
     rep.set_exhaustive(true);
 }
 
